@@ -250,9 +250,15 @@ impl Channel {
         chan.busy = false;
         chan.transmission_finish_time = SimTime::ZERO;
 
-        if let Some((msg, next_gate)) = chan.buffer.dequeue() {
-            drop(chan);
-            self.send_message(msg, next_gate, sink);
+        drop(chan);
+
+        // A message with a transmission time of zero does not make the channel
+        // busy again, so keep transmitting until the channel is occupied.
+        while !self.is_busy() {
+            let Some((msg, next_gate)) = self.inner.write().unwrap().buffer.dequeue() else {
+                break;
+            };
+            self.clone().send_message(msg, next_gate, sink);
         }
     }
 }
